@@ -33,7 +33,7 @@ Vals(ty) ==
     \* (signed widths also -1: two negative values, so that a map keyed by them has an order among negatives)
     [] ty.t \in Ints -> IF ty.t \in {"i8", "i16", "i32", "i64", "i128"} THEN <<IntV(ty.t, "max"), IntV(ty.t, "min"), IntV(ty.t, "m1")>>
                                                                        ELSE <<IntV(ty.t, "max"), IntV(ty.t, "min")>>
-    [] ty.t = "f64" -> <<[k |-> "f64", v |-> "0.5"], [k |-> "f64", v |-> "-2.25"], [k |-> "f64", v |-> "1e19"], [k |-> "f64", v |-> "-0.0"]>>
+    [] ty.t = "f64" -> <<[k |-> "f64", v |-> "0.5"], [k |-> "f64", v |-> "-2.25"], [k |-> "f64", v |-> "1e19"], [k |-> "f64", v |-> "-0.0"], [k |-> "f64", v |-> "2.0"]>>
     [] ty.t = "f32" -> <<[k |-> "f32", v |-> "0.5"]>>
     [] ty.t = "char" -> <<[k |-> "char", v |-> "c1"], [k |-> "char", v |-> "c2"]>>
     \* (s2: 12 characters in 24 bytes -- strings are stored inline up to 21 BYTES)
@@ -42,7 +42,9 @@ Vals(ty) ==
     [] ty.t = "opt" -> <<[k |-> "some", v |-> First(ty.a)], [k |-> "none"]>>
     [] ty.t = "seq" -> <<[k |-> "seq", v |-> Vals(ty.a)], [k |-> "seq", v |-> <<>>]>>
     [] ty.t = "tuple" -> <<[k |-> "tuple", v |-> [i \in 1..Len(ty.ts) |-> First(ty.ts[i])]]>>
-    [] ty.t = "map" -> <<[k |-> "map", v |-> [i \in 1..Len(Vals(ty.k)) |-> <<Vals(ty.k)[i], First(ty.v)>>]], [k |-> "map", v |-> <<>>]>>
+    \* (all key values; no entry; ONLY the last key value -- for floats a whole number: refused like any other float key)
+    [] ty.t = "map" -> <<[k |-> "map", v |-> [i \in 1..Len(Vals(ty.k)) |-> <<Vals(ty.k)[i], First(ty.v)>>]], [k |-> "map", v |-> <<>>],
+                         [k |-> "map", v |-> << <<Vals(ty.k)[Len(Vals(ty.k))], First(ty.v)>> >>]>>
     \* (a struct with the first value of every field, and one with the second: an absent option, an empty sequence ...)
     [] ty.t = "struct" -> <<[k |-> "struct", name |-> ty.name, v |-> [i \in 1..Len(ty.fs) |-> <<ty.fs[i][1], First(ty.fs[i][2])>>]],
                             [k |-> "struct", name |-> ty.name, v |-> [i \in 1..Len(ty.fs) |-> <<ty.fs[i][1], Second(ty.fs[i][2])>>]]>>
